@@ -28,6 +28,7 @@ from fractions import Fraction
 import vlib
 from gen import serial as G
 from props import C02
+from props import C15print
 
 NOT_ALIGNED_KIND = "reuse:not_aligned_lost"
 COUNTING = ["unique_only", "with_ambiguous", "unique_splicing_consistent", "unique_inconsistent", "all"]
@@ -106,6 +107,7 @@ def base(ctx_seed):
 
 
 def cleanup():
+    C15print.reset_cache()
     d = _B.pop("dir", None)
     _B.clear()
     if d:
@@ -183,6 +185,13 @@ def gen_case(rng, B, cid):
                 if rng.random() < 0.2 and len(r["cexons"]) > 1:
                     r["cexons"] = r["cexons"][:1]           # unspliced corrected alignment: not confirming
                     r["cintrons"] = []
+                if aid % 5 == 0 and r["exons"][0][0] > 600 and r["cexons"][0][0] > 600:
+                    # a read reaching beyond the annotated gene (no rng draw): one more exon and intron upstream of the
+                    # saved gene span - the loader has to widen the reference window (extend_reference_region, f48e223)
+                    s0 = min(r["exons"][0][0], r["cexons"][0][0])
+                    r["exons"] = [[s0 - 500, s0 - 400]] + r["exons"]
+                    r["cexons"] = [[s0 - 500, s0 - 400]] + r["cexons"]
+                    r["cintrons"] = G.junctions_from_blocks(r["cexons"])
                 reads.append(r)
                 if reads and rng.random() < 0.12:            # an `__eq__`-duplicate of the record just added
                     aid += 1
@@ -194,7 +203,9 @@ def gen_case(rng, B, cid):
         chroms.append({"name": nm, "groups": groups})
     return {"id": cid, "chroms": chroms, "unmapped": [rng.choice([0, 0, 1, 3]) for _ in range(rng.choice([1, 2]))],
             "gene_strategy": rng.choice(COUNTING), "transcript_strategy": rng.choice(COUNTING),
-            "norm": rng.choice(NORMS), "n_records": n_rec}
+            "norm": rng.choice(NORMS), "n_records": n_rec,
+            # read-level printers (props/C15print.py): the Canonical column on for every second case (no rng draw)
+            "check_canonical": n_rec % 2 == 0}
 
 
 # ------------------------------------------------------------------------------------------------
@@ -338,7 +349,7 @@ def common_opts(case, B):
     return ["--threads", "1", "--reference", B["paths"]["ref"], "--data_type", "nanopore", "-p", "S", "--no_gzip",
             "--genedb", B["db"], "--complete_genedb", "--no_model_construction",
             "--gene_quantification", case["gene_strategy"], "--transcript_quantification", case["transcript_strategy"],
-            "--normalization_method", case["norm"]]
+            "--normalization_method", case["norm"]] + (["--check_canonical"] if case.get("check_canonical") else [])
 
 
 def real_saving_run(case, B, root, high_memory):
@@ -502,8 +513,10 @@ def correspondence(ctx):
             run.update(case=case, hm=hm, pos=pos)
             if run["errA"] is None:
                 run["obsA"] = observed(run["outA"], pos)
+                run["printedA"] = C15print.printed_files(run["outA"], outputs_of)
                 if run["errB"] is None:
                     run["obsB"] = observed(run["outB"], pos)
+                    run["printedB"] = C15print.printed_files(run["outB"], outputs_of)
                 if run.get("files_old") is not None and run["errO"] is None:
                     run["obsO"] = observed(run["outO"], pos)
             shutil.rmtree(run["root"], ignore_errors=True)
@@ -514,6 +527,8 @@ def correspondence(ctx):
         reqs.append(req_saving(run["case"], B, run["hm"]))
         if run["files"] is not None:
             reqs.append(req_restart(run["case"], B, run["files"]))
+            reqs.append(C15print.req_print_saved(run["case"], B, env_of(run["case"], B), run["files"],
+                                                 run["printedA"]["tsv"][:2], bool(run["case"].get("check_canonical"))))
         if run.get("files_old") is not None:
             reqs.append(req_restart(run["case"], B, run["files_old"]))
     outs = iter(ctx.driver.run(reqs))
@@ -523,6 +538,7 @@ def correspondence(ctx):
         ctx.count("op:saving_run:" + mode)
         mo = next(outs)
         mr = next(outs) if run["files"] is not None else None
+        mp = next(outs) if run["files"] is not None else None
         mold = next(outs) if run.get("files_old") is not None else None
         ctx.evaluations += 1
         ctx.traces_validated += 1
@@ -549,6 +565,29 @@ def correspondence(ctx):
         why = compare(case, mo["run"], run["obsA"])
         if why:
             ctx.disagree("saving_run", big, {"why": why}, None)
+        # (2p) read_assignments.tsv / corrected_reads.bed of the saving run and of the restart, line by line, against
+        # `processSavedP` on the REAL saved files (`restart_prints_second_half`: both runs print from the same files)
+        if mp is not None:
+            ctx.count("op:print_saved:" + mode)
+            ctx.evaluations += 1
+            why = C15print.compare_printed(mp, run["printedA"])
+            if why:
+                ctx.disagree("print_saved", big, {"why": why, "run": "saving"}, None)
+            elif run.get("printedB") is not None:
+                hb = run["printedB"]["tsv"][:2]
+                ok_head = len(hb) == 2 and hb[0].startswith("# Command line: ") and hb[1].startswith("# IsoQuant version: ")
+                restB = {"tsv": run["printedA"]["tsv"][:2] + run["printedB"]["tsv"][2:], "bed": run["printedB"]["bed"]}
+                why = C15print.compare_printed(mp, restB) if ok_head else "restart: unexpected header lines %r" % hb
+                if why:
+                    ctx.disagree("print_saved", big, {"why": why, "run": "restart"}, None)
+                else:
+                    ctx.count("reuse:printed_files_identical")
+                    if len(run["printedA"]["tsv"]) > 3 and len(run["printedA"]["bed"]) > 1:
+                        ctx.mark_nontrivial(["print_saved", case["id"], hm])
+                    if any("Canonical=True" in l for l in run["printedA"]["tsv"]):
+                        ctx.count("reuse:printed_canonical_true")
+                    if any(":" in l.split("\t")[6] for l in run["printedA"]["tsv"][3:]):
+                        ctx.count("reuse:printed_event_with_info")
         # (4) the restart on a save folder of the older format (`restart_on_old_info_file`)
         if mold is not None:
             ctx.count("op:restart_old_info_format")
@@ -628,6 +667,9 @@ def judge(case, B, high_memory):
             fails.append((NOT_ALIGNED_KIND, "%s: saving run `%s`, restarted run `%s`" % (na[0][0], na[0][1], na[0][2])))
         if other:
             fails.append(("reuse:outputs_differ", "; ".join("%s: `%s` vs `%s`" % d for d in other[:3])))
+        # C05 / C08 at line level on the saving run's own files: corrected_reads.bed and read_assignments.tsv name the same reads
+        pa = C15print.printed_files(run["outA"], outputs_of)
+        fails += C15print.lines_check(pa["tsv"], pa["bed"])
         # a second restart from the same files, and the files themselves untouched
         before = read_files(run["prefix"], [c["name"] for c in case["chroms"]])
         outC, errC = real_restart(case, B, run["root"], run["prefix"], tag="C")
